@@ -39,6 +39,11 @@
    fixed-size array, the components of a tuple, the mapped values of a map (OnlyExistKeys / UpdateKeys); a sequence
    container is resized to the announced count and an element that is not loaded is RESET to value_type(); a target
    whose scope cannot be opened (nil, a value of another kind under Skip) is left as it is (LNot).
+     std::optional<T>, std::unique_ptr<T>, std::shared_ptr<T> (one shape, SOpt e: ownership is not modelled): an empty one
+       gets a value-initialised T, then T is loaded into what it holds; if that load returns false the wrapper is
+       RESET to empty and returns false itself (LReset: returned false, but the target has changed) — so an absent
+       class member, a nil, a mismatch under Skip all leave it EMPTY.  Content: TNil = empty, otherwise the value;
+       modelled for T that is itself never nil (not nullptr_t, not another wrapper).
    load_tr is the association-list level: it consumes the scopes' ANSWERS (typed_spec of the value found, lookup of a
    member key) and returns them as tokens together with the loaded value.
    Not modelled here: validation.  On loads that end in an error the tokens are not claimed (only the error).
@@ -100,7 +105,8 @@ Inductive shape :=
 | SMap (m : mmode) (ks : kshape) (e : shape)   (* std::map<K, e> loaded in mode m *)
 | SArr (n : nat) (e : shape)             (* std::array<e, n>, e[n] *)
 | SVecBool                               (* std::vector<bool> *)
-| STuple (ss : list shape).              (* std::tuple<ss...> *)
+| STuple (ss : list shape)               (* std::tuple<ss...> *)
+| SOpt (e : shape).                      (* std::optional<e>, std::unique_ptr<e>, std::shared_ptr<e> *)
 
 Definition key_bytes (k : tv) : list N := match k with TStr s => s | _ => [] end.
 
@@ -120,36 +126,65 @@ Fixpoint shape_of (v : tv) : shape :=
 
 (* v is a value of the static shape s: arrays are homogeneous, objects are classes with string member names or
    std::map values (keys of the map's key type, strictly increasing) *)
-Fixpoint has_shape (v : tv) (s : shape) {struct v} : bool :=
-  match v, s with
-  | TNil, SNil | TBool _, SBool | TF32 _, SF32 | TF64 _, SF64 | TStr _, SStr | TBytes _, SBytes => true
-  | TInt k _, SInt k' => match k, k' with
-                         | IU8, IU8 | IU16, IU16 | IU32, IU32 | IU64, IU64 | IS8, IS8 | IS16, IS16 | IS32, IS32 | IS64, IS64 => true
-                         | _, _ => false
-                         end
-  | TArr l, SVec e => (fix all (l : list tv) : bool := match l with [] => true | x :: t => has_shape x e && all t end) l
-  | TObj kvs, SClass ms =>
-    (fix all (l : list (tv * tv)) (ms : list (list N * shape)) : bool :=
-       match l, ms with
-       | [], [] => true
-       | (k, x) :: t, (name, s') :: ms' =>
-         match k with TStr kb => bytes_eqb kb name | _ => false end && has_shape x s' && all t ms'
-       | _, _ => false
-       end) kvs ms
-  | TObj kvs, SMap _ ks e =>
-    (fix all (l : list (tv * tv)) : bool :=
-       match l with [] => true | (k, x) :: t => key_has k ks && has_shape x e && all t end) kvs && pairs_sorted kvs
-  | TArr l, SArr n e =>
-    Nat.eqb (length l) n && (fix all (l : list tv) : bool := match l with [] => true | x :: t => has_shape x e && all t end) l
-  | TArr l, SVecBool => (fix all (l : list tv) : bool := match l with [] => true | TBool _ :: t => all t | _ => false end) l
-  | TArr l, STuple ss =>
-    (fix all (l : list tv) (ss : list shape) : bool :=
-       match l, ss with
-       | [], [] => true
-       | x :: t, s' :: ss' => has_shape x s' && all t ss'
-       | _, _ => false
-       end) l ss
-  | _, _ => false
+Fixpoint has_shape (v : tv) (s : shape) {struct s} : bool :=
+  match s with
+  | SNil => match v with TNil => true | _ => false end
+  | SBool => match v with TBool _ => true | _ => false end
+  | SInt k' => match v with TInt k _ => ikind_eqb k k' | _ => false end
+  | SF32 => match v with TF32 _ => true | _ => false end
+  | SF64 => match v with TF64 _ => true | _ => false end
+  | SStr => match v with TStr _ => true | _ => false end
+  | SBytes => match v with TBytes _ => true | _ => false end
+  | SVec e =>
+    match v with
+    | TArr l => (fix all (l : list tv) : bool := match l with [] => true | x :: t => has_shape x e && all t end) l
+    | _ => false
+    end
+  | SClass ms =>
+    match v with
+    | TObj kvs =>
+      (fix all (ms : list (list N * shape)) (l : list (tv * tv)) {struct ms} : bool :=
+         match l, ms with
+         | [], [] => true
+         | (k, x) :: t, (name, s') :: ms' =>
+           match k with TStr kb => bytes_eqb kb name | _ => false end && has_shape x s' && all ms' t
+         | _, _ => false
+         end) ms kvs
+    | _ => false
+    end
+  | SMap _ ks e =>
+    match v with
+    | TObj kvs =>
+      (fix all (l : list (tv * tv)) : bool :=
+         match l with [] => true | (k, x) :: t => key_has k ks && has_shape x e && all t end) kvs && pairs_sorted kvs
+    | _ => false
+    end
+  | SArr n e =>
+    match v with
+    | TArr l => Nat.eqb (length l) n && (fix all (l : list tv) : bool := match l with [] => true | x :: t => has_shape x e && all t end) l
+    | _ => false
+    end
+  | SVecBool =>
+    match v with
+    | TArr l => (fix all (l : list tv) : bool := match l with [] => true | TBool _ :: t => all t | _ => false end) l
+    | _ => false
+    end
+  | STuple ss =>
+    match v with
+    | TArr l =>
+      (fix all (ss : list shape) (l : list tv) {struct ss} : bool :=
+         match l, ss with
+         | [], [] => true
+         | x :: t, s' :: ss' => has_shape x s' && all ss' t
+         | _, _ => false
+         end) ss l
+    | _ => false
+    end
+  | SOpt e =>     (* empty, or a value of a shape that is never nil *)
+    match v with
+    | TNil => true
+    | _ => match e with SNil | SOpt _ => false | _ => has_shape v e end
+    end
   end.
 
 Definition ity_of_kind (k : ikind) : ity :=
@@ -187,6 +222,7 @@ Fixpoint default_of (s : shape) : tv :=
   | SArr n e => TArr (repeat (default_of e) n)
   | SVecBool => TArr []
   | STuple ss => TArr ((fix go (ss : list shape) : list tv := match ss with [] => [] | s' :: t => default_of s' :: go t end) ss)
+  | SOpt _ => TNil
   end.
 
 (* ---------- std::map: lookup, insertion, key conversion ---------- *)
@@ -247,6 +283,7 @@ Definition keys_list (kvs : list (mpv * mpv)) : list key :=
 Fixpoint modelled (s : shape) (v : mpv) {struct s} : bool :=
   match s with
   | SVec e | SArr _ e => match v with MArr vs => forallb (modelled e) vs | _ => true end
+  | SOpt e => modelled e v
   | STuple ss =>
     match v with
     | MArr vs =>
@@ -288,11 +325,12 @@ Definition of_value (s : shape) (x : value) : tv :=
   end.
 
 (* Serialize(...) returned true with the loaded value / returned false (target untouched) / threw *)
-Inductive lres := LOk (v : tv) | LNot | LErr (e : serr).
+(* LReset x: Serialize(...) returned false, but the target now holds x (a wrapper that was reset to empty) *)
+Inductive lres := LOk (v : tv) | LNot | LReset (x : tv) | LErr (e : serr).
 
 (* what a sequence container holds after the load of an element (reset when not loaded) / what any other target holds *)
 Definition fill (s : shape) (r : lres) : tv := match r with LOk v => v | _ => default_of s end.
-Definition keep (i : tv) (r : lres) : tv := match r with LOk v => v | _ => i end.
+Definition keep (i : tv) (r : lres) : tv := match r with LOk v => v | LReset x => x | _ => i end.
 
 (* the parts of a target's content *)
 Definition arr_items (i : tv) : list tv := match i with TArr l => l | _ => [] end.
@@ -364,8 +402,8 @@ Section Load.
     | _ => no_container v
     end.
 
-  Definition absent_toks (s : shape) : list tok :=
-    match s with SVec _ | SClass _ | SMap _ _ _ | SArr _ _ | SVecBool | STuple _ => [KNone] | SBytes => [KNone; KNone] | _ => [KFalse] end.
+  Fixpoint absent_toks (s : shape) : list tok :=
+    match s with SOpt e => absent_toks e | SVec _ | SClass _ | SMap _ _ _ | SArr _ _ | SVecBool | STuple _ => [KNone] | SBytes => [KNone; KNone] | _ => [KFalse] end.
 
   (* SerializeMapImpl over the members of the document, in document order: key conversion, then (unless the mode is
      OnlyExistKeys and the map m0 has no such key) the load of the mapped value under the archive key (which finds the
@@ -402,6 +440,13 @@ Section Load.
       end.
   End Entries.
 
+  (* the keyed load of a member the document does not have: false; a wrapper has been reset to empty by then *)
+  Definition absent_res (s : shape) : lres := match s with SOpt _ => LReset TNil | _ => LNot end.
+
+  (* the content the wrapped value is loaded into, and what the wrapper makes of the result *)
+  Definition opt_init (e : shape) (i : tv) : tv := match i with TNil => default_of e | _ => i end.
+  Definition opt_res (r : lres) : lres := match r with LOk x => LOk x | LErr err => LErr err | _ => LReset TNil end.
+
   (* value.Serialize(scope): one keyed load per member, in declaration order, each into the member's content
      (inits: the fields the target has, in declaration order); stop at an exception *)
   Section Members.
@@ -414,7 +459,7 @@ Section Load.
         let i0 := match inits with (_, x) :: _ => x | [] => default_of s' end in
         match (match lookup (KStr name) kvs with
                | Some x => load s' i0 x
-               | None => (absent_toks s', LNot)
+               | None => (absent_toks s', absent_res s')
                end) with
         | (t, LErr err) => (t, [], Some err)
         | (t, r) => match members_tr (tl inits) ms' with (t', fields, err) => (t ++ t', (TStr name, keep i0 r) :: fields, err) end
@@ -520,6 +565,7 @@ Section Load.
         end
       | _ => no_container v
       end
+    | SOpt e => match load_tr e (opt_init e i) v with (t, r) => (t, opt_res r) end
     | _ => match target_of s with Some t => scalar_tr s t v | None => ([], LNot) end
     end.
 
@@ -616,6 +662,7 @@ Section Progs.
     match s with
     | SVec e | SArr _ e => [AArr (arr_prog (elem_prog e) (default_of e) (arr_items i) v)]
     | SVecBool => [AArr (arr_prog bool_prog (TBool false) [] v)]
+    | SOpt e => elem_prog e (opt_init e i) v
     | STuple ss => [AArr (match v with MArr vs => mk_areqs (comps_prog o elem_prog ss (arr_items i) vs) | _ => ANil end)]
     | SBytes => match v with
                 | MBin bs => [ABin (length bs)]
@@ -633,6 +680,7 @@ Section Progs.
     match s with
     | SVec e | SArr _ e => [RArr q (match ov with Some v => arr_prog (elem_prog e) (default_of e) (arr_items i) v | None => ANil end)]
     | SVecBool => [RArr q (match ov with Some v => arr_prog bool_prog (TBool false) [] v | None => ANil end)]
+    | SOpt e => member_prog e (opt_init e i) q ov
     | STuple ss => [RArr q (match ov with Some (MArr vs) => mk_areqs (comps_prog o elem_prog ss (arr_items i) vs) | _ => ANil end)]
     | SBytes => match ov with
                 | Some (MBin bs) => [RBin q (length bs)]
@@ -652,6 +700,7 @@ Section Progs.
     match s with
     | SVec e | SArr _ e => VArr (arr_prog (elem_prog e) (default_of e) (arr_items i) v)
     | SVecBool => VArr (arr_prog bool_prog (TBool false) [] v)
+    | SOpt e => vact_prog e (opt_init e i) v
     | STuple ss => VArr (match v with MArr vs => mk_areqs (comps_prog o elem_prog ss (arr_items i) vs) | _ => ANil end)
     | SBytes => match v with
                 | MBin bs => VBin (length bs)
@@ -766,6 +815,11 @@ End ReadComps.
 
 Fixpoint read_off (s : shape) (i : tv) (t : list tok) {struct s} : option (lres * list tok) :=
   match s with
+  | SOpt e =>
+    match read_off e (opt_init e i) t with
+    | Some (r, t') => Some (opt_res r, t')
+    | None => None
+    end
   | STuple ss =>
     match t with
     | KNone :: t' => Some (LNot, t')
@@ -826,7 +880,7 @@ Fixpoint read_off (s : shape) (i : tv) (t : list tok) {struct s} : option (lres 
 (* shapes without std::map *)
 Fixpoint map_free (s : shape) : bool :=
   match s with
-  | SVec e | SArr _ e => map_free e
+  | SVec e | SArr _ e | SOpt e => map_free e
   | SClass ms => (fix go (ms : list (list N * shape)) : bool := match ms with [] => true | (_, s') :: t => map_free s' && go t end) ms
   | SMap _ _ _ => false
   | STuple ss => (fix go (ss : list shape) : bool := match ss with [] => true | s' :: t => map_free s' && go t end) ss
@@ -836,7 +890,7 @@ Fixpoint map_free (s : shape) : bool :=
 (* every std::map of the shape is loaded with MapLoadMode::Clean *)
 Fixpoint clean_maps (s : shape) : bool :=
   match s with
-  | SVec e | SArr _ e => clean_maps e
+  | SVec e | SArr _ e | SOpt e => clean_maps e
   | SClass ms => (fix go (ms : list (list N * shape)) : bool := match ms with [] => true | (_, s') :: t => clean_maps s' && go t end) ms
   | STuple ss => (fix go (ss : list shape) : bool := match ss with [] => true | s' :: t => clean_maps s' && go t end) ss
   | SMap m _ e => (match m with MClean => true | _ => false end) && clean_maps e
@@ -849,6 +903,7 @@ Fixpoint clean_maps (s : shape) : bool :=
 Fixpoint overwritten (s : shape) : bool :=
   match s with
   | SVec e => overwritten e
+  | SOpt e => overwritten e
   | SMap MClean _ e => overwritten e
   | SClass _ | SArr _ _ | STuple _ | SMap _ _ _ => false
   | _ => true
